@@ -86,7 +86,8 @@ def _mon_block1014(m):
         def __init__(self, file_obj, *a, **k):
             orig(self, file_obj, *a, **k)
             snap = _snapshot(file_obj)
-            self.__dict__['_vm'] = {'data': bytearray(), 'start': len(snap[0]) if snap and snap[1] == len(snap[0]) else None}
+            self.__dict__['_vm'] = {'data': bytearray(), 'raw': file_obj,
+                                    'start': len(snap[0]) if snap and snap[1] == len(snap[0]) else None}
         return __init__
 
     def write(orig):
@@ -106,7 +107,7 @@ def _mon_block1014(m):
         def finalise(self, *a, **k):
             r = orig(self, *a, **k)
             vm = self.__dict__.get('_vm')
-            snap = _snapshot(self.file_obj) if vm else None
+            snap = _snapshot(vm['raw']) if vm else None      # the object handed to the constructor, not an attribute name
             if vm is None or vm['start'] is None or snap is None:
                 counters['C04:finalisations not observable'] += 1
                 return r
@@ -142,7 +143,7 @@ def _mon_unblock1014(m):
             if vm is None:
                 counters['C05:reads not observable'] += 1
                 return r
-            n = a[0] if a else k.get('bytes_to_read')
+            n = a[0] if a else (next(iter(k.values())) if k else None)     # the one argument, whatever it is called
             if n == 0 and n is not None:
                 counters['C05:reads of size 0 (not judged)'] += 1
                 return r
